@@ -463,8 +463,8 @@ func docAll(ctx context.Context, d iface.DocumentStore) map[string][]byte {
 			continue
 		}
 		id, _ := m["_id"].(string)
-		v, _ := m["v"].(string)
-		out[id] = []byte(v)
+		b, _ := json.Marshal(m)
+		out[id] = b
 	}
 	return out
 }
